@@ -78,6 +78,8 @@ func execLocal(line string) (impl, oracle string) {
 		return opFzConn(w[1])
 	case "fzsim":
 		return opFzSim(w[1], w[2], w[3], w[4])
+	case "fzspin":
+		return opFzSpin(w[1])
 	case "fzfetch":
 		return opFzFetch(w[1])
 	case "fzparse":
